@@ -1,0 +1,121 @@
+//go:build verif
+
+// Machine-checked contracts of the lifts in this plugin (C18): each operator is ro.Map / ro.MapErr around one
+// call of the wrapped function; the lambda must call it exactly once with the item and return its results.
+// Generated once by `rovc liftgen`, reviewed, and kept as the specification. Comments only.
+
+package roregexp
+
+
+//@ func FilterMatch$1
+//@   props C18
+//@   maypanic
+//@   track call.*
+//@   ensures [calls-the-wrapped-function-once|C18] count(call.ANY) == 1 && called(call.Regexp.Match)
+//@   ensures [passes-the-item-and-the-operator-parameters|C18] arg(call.Regexp.Match, 0) == pattern && arg(call.Regexp.Match, 1) == v
+//@   ensures [returns-its-result|C18] result == res(call.Regexp.Match)
+
+//@ func FilterMatchString$1
+//@   props C18
+//@   maypanic
+//@   track call.*
+//@   ensures [calls-the-wrapped-function-once|C18] count(call.ANY) == 1 && called(call.Regexp.MatchString)
+//@   ensures [passes-the-item-and-the-operator-parameters|C18] arg(call.Regexp.MatchString, 0) == pattern && arg(call.Regexp.MatchString, 1) == v
+//@   ensures [returns-its-result|C18] result == res(call.Regexp.MatchString)
+
+//@ func Find$1
+//@   props C18
+//@   maypanic
+//@   track call.*
+//@   ensures [calls-the-wrapped-function-once|C18] count(call.ANY) == 1 && called(call.Regexp.Find)
+//@   ensures [passes-the-item-and-the-operator-parameters|C18] arg(call.Regexp.Find, 0) == pattern && arg(call.Regexp.Find, 1) == v
+//@   ensures [returns-its-result|C18] result == res(call.Regexp.Find)
+
+//@ func FindAll$1
+//@   props C18
+//@   maypanic
+//@   track call.*
+//@   ensures [calls-the-wrapped-function-once|C18] count(call.ANY) == 1 && called(call.Regexp.FindAll)
+//@   ensures [passes-the-item-and-the-operator-parameters|C18] arg(call.Regexp.FindAll, 0) == pattern && arg(call.Regexp.FindAll, 1) == v && arg(call.Regexp.FindAll, 2) == n
+//@   ensures [returns-its-result|C18] result == res(call.Regexp.FindAll)
+
+//@ func FindAllString$1
+//@   props C18
+//@   maypanic
+//@   track call.*
+//@   ensures [calls-the-wrapped-function-once|C18] count(call.ANY) == 1 && called(call.Regexp.FindAllString)
+//@   ensures [passes-the-item-and-the-operator-parameters|C18] arg(call.Regexp.FindAllString, 0) == pattern && arg(call.Regexp.FindAllString, 1) == v && arg(call.Regexp.FindAllString, 2) == n
+//@   ensures [returns-its-result|C18] result == res(call.Regexp.FindAllString)
+
+//@ func FindAllStringSubmatch$1
+//@   props C18
+//@   maypanic
+//@   track call.*
+//@   ensures [calls-the-wrapped-function-once|C18] count(call.ANY) == 1 && called(call.Regexp.FindAllStringSubmatch)
+//@   ensures [passes-the-item-and-the-operator-parameters|C18] arg(call.Regexp.FindAllStringSubmatch, 0) == pattern && arg(call.Regexp.FindAllStringSubmatch, 1) == v && arg(call.Regexp.FindAllStringSubmatch, 2) == n
+//@   ensures [returns-its-result|C18] result == res(call.Regexp.FindAllStringSubmatch)
+
+//@ func FindAllSubmatch$1
+//@   props C18
+//@   maypanic
+//@   track call.*
+//@   ensures [calls-the-wrapped-function-once|C18] count(call.ANY) == 1 && called(call.Regexp.FindAllSubmatch)
+//@   ensures [passes-the-item-and-the-operator-parameters|C18] arg(call.Regexp.FindAllSubmatch, 0) == pattern && arg(call.Regexp.FindAllSubmatch, 1) == v && arg(call.Regexp.FindAllSubmatch, 2) == n
+//@   ensures [returns-its-result|C18] result == res(call.Regexp.FindAllSubmatch)
+
+//@ func FindString$1
+//@   props C18
+//@   maypanic
+//@   track call.*
+//@   ensures [calls-the-wrapped-function-once|C18] count(call.ANY) == 1 && called(call.Regexp.FindString)
+//@   ensures [passes-the-item-and-the-operator-parameters|C18] arg(call.Regexp.FindString, 0) == pattern && arg(call.Regexp.FindString, 1) == v
+//@   ensures [returns-its-result|C18] result == res(call.Regexp.FindString)
+
+//@ func FindStringSubmatch$1
+//@   props C18
+//@   maypanic
+//@   track call.*
+//@   ensures [calls-the-wrapped-function-once|C18] count(call.ANY) == 1 && called(call.Regexp.FindStringSubmatch)
+//@   ensures [passes-the-item-and-the-operator-parameters|C18] arg(call.Regexp.FindStringSubmatch, 0) == pattern && arg(call.Regexp.FindStringSubmatch, 1) == v
+//@   ensures [returns-its-result|C18] result == res(call.Regexp.FindStringSubmatch)
+
+//@ func FindSubmatch$1
+//@   props C18
+//@   maypanic
+//@   track call.*
+//@   ensures [calls-the-wrapped-function-once|C18] count(call.ANY) == 1 && called(call.Regexp.FindSubmatch)
+//@   ensures [passes-the-item-and-the-operator-parameters|C18] arg(call.Regexp.FindSubmatch, 0) == pattern && arg(call.Regexp.FindSubmatch, 1) == v
+//@   ensures [returns-its-result|C18] result == res(call.Regexp.FindSubmatch)
+
+//@ func Match$1
+//@   props C18
+//@   maypanic
+//@   track call.*
+//@   ensures [calls-the-wrapped-function-once|C18] count(call.ANY) == 1 && called(call.Regexp.Match)
+//@   ensures [passes-the-item-and-the-operator-parameters|C18] arg(call.Regexp.Match, 0) == pattern && arg(call.Regexp.Match, 1) == v
+//@   ensures [returns-its-result|C18] result == res(call.Regexp.Match)
+
+//@ func MatchString$1
+//@   props C18
+//@   maypanic
+//@   track call.*
+//@   ensures [calls-the-wrapped-function-once|C18] count(call.ANY) == 1 && called(call.Regexp.MatchString)
+//@   ensures [passes-the-item-and-the-operator-parameters|C18] arg(call.Regexp.MatchString, 0) == pattern && arg(call.Regexp.MatchString, 1) == v
+//@   ensures [returns-its-result|C18] result == res(call.Regexp.MatchString)
+
+//@ func ReplaceAll$1
+//@   props C18
+//@   maypanic
+//@   track call.*
+//@   ensures [calls-the-wrapped-function-once|C18] count(call.ANY) == 1 && called(call.Regexp.ReplaceAll)
+//@   ensures [passes-the-item-and-the-operator-parameters|C18] arg(call.Regexp.ReplaceAll, 0) == pattern && arg(call.Regexp.ReplaceAll, 1) == v && arg(call.Regexp.ReplaceAll, 2) == repl
+//@   ensures [returns-its-result|C18] result == res(call.Regexp.ReplaceAll)
+
+//@ func ReplaceAllString$1
+//@   props C18
+//@   maypanic
+//@   track call.*
+//@   ensures [calls-the-wrapped-function-once|C18] count(call.ANY) == 1 && called(call.Regexp.ReplaceAllString)
+//@   ensures [passes-the-item-and-the-operator-parameters|C18] arg(call.Regexp.ReplaceAllString, 0) == pattern && arg(call.Regexp.ReplaceAllString, 1) == v && arg(call.Regexp.ReplaceAllString, 2) == repl
+//@   ensures [returns-its-result|C18] result == res(call.Regexp.ReplaceAllString)
+
